@@ -83,7 +83,7 @@ class C06(Prop):
     rule = ("random well-formed ordinal instances of the four types and approval profiles, multiplicities up to 50, "
             "planted Copeland wins-vs-margins separations and exact SAV ties with class sizes 3/7/10, every k in "
             "1..m+2, every rule x data type for the guards; non-trivial = in-domain call with >= 2 distinct orders")
-    budget = {"quick": 400, "thorough": 4000}
+    budget = {"quick": 400, "thorough": 40000}
     anchors = [("preflibtools.aggregation.singlewinner", RULES[r][0]) for r in RULES] + \
               [("preflibtools.properties.pairwisecomparisons", "borda_scores"),
                ("preflibtools.properties.pairwisecomparisons", "copeland_scores"),
